@@ -151,6 +151,8 @@ def gen_drop(w, r, cfg):
         mode = 'late'
     elif cfg['final_mode'] == 'mixed':
         mode = r.choice(['now', 'late'])
+    if cfg.get('explicit_release') and r.random() < cfg['explicit_release']:
+        mode = r.choice(['explicit', 'explicit_late'])
     return dict(op='drop', a=_ri(r), mode=mode)
 
 
@@ -206,6 +208,17 @@ def gen_arm_final(w, r, cfg):
     return dict(op='arm_final', k=r.choice([1, 1, 2, 3, 5, 8, 13, 21]))
 
 
+NEST_KINDS = ['apply', 'apply_r', 'apply_both', 'not', 'ite', 'ite_else', 'op', 'quant', 'let', 'let_fn']
+
+
+def gen_nest(w, r, cfg):
+    return dict(op='nest', kind=r.choice(NEST_KINDS), a=_ri(r), b=_ri(r), c=_ri(r),
+                sym1=r.choice(ops.ALL_BINARY_SYMS), sym2=r.choice(ops.ALL_BINARY_SYMS),
+                neg=r.randrange(2), forall=r.randrange(2), vars=r.randrange(1, 1 << w.nv),
+                pairs=[[_ri(r, w.nv), r.randrange(2)] for _ in range(r.randint(1, 2))],
+                keep=r.random() < cfg['keep_rate'])
+
+
 def gen_probe(w, r, cfg):
     want = cfg.get('probe_second') or ['apply']
     k = r.choice(want)
@@ -238,7 +251,7 @@ GEN = dict(
     find_or_add=gen_find_or_add, drop=gen_drop, dup=gen_dup,
     traverse=gen_traverse, gc=gen_gc, swap=gen_swap, reorder=gen_reorder,
     pairs=gen_pairs, configure=gen_configure, knobs=gen_knobs, arm=gen_arm,
-    finalize=gen_finalize, arm_final=gen_arm_final, redo=gen_redo, probe=gen_probe)
+    finalize=gen_finalize, arm_final=gen_arm_final, redo=gen_redo, probe=gen_probe, nest=gen_nest)
 
 
 def register(name, fn):
@@ -299,9 +312,9 @@ def next_instruction(w, r, cfg):
     return ins
 
 
-ALLOC_OPS = {'apply', 'ite', 'fop', 'quant', 'let', 'cube', 'find_or_add', 'add_expr', 'var'}
+ALLOC_OPS = {'apply', 'ite', 'fop', 'quant', 'let', 'cube', 'find_or_add', 'add_expr', 'var', 'copy', 'image'}
 SWEEP_FINAL_OPS = ['apply', 'ite', 'quant', 'let', 'cube', 'var', 'add_expr', 'copy', 'image', 'find_or_add',
-                   'fop', 'reorder', 'swap', 'pairs', 'to_expr', 'load', 'probe']
+                   'fop', 'nest', 'reorder', 'swap', 'pairs', 'to_expr', 'load', 'probe']
 
 
 def sweep_tail(w, r, cfg):
@@ -321,7 +334,7 @@ def sweep_tail(w, r, cfg):
         yield final
         yield dict(op='apply', sym='and', a=_ri(r), b=_ri(r), keep=False)
     elif sw['kind'] == 'final':
-        k = r.choice(['apply', 'fop', 'quant', 'let', 'reorder', 'reorder', 'add_expr', 'traverse', 'gc', 'copy'])
+        k = r.choice(['apply', 'fop', 'quant', 'let', 'reorder', 'reorder', 'add_expr', 'traverse', 'gc', 'copy', 'nest'])
         final = GEN[k](w, r, cfg) if k in GEN else gen_apply(w, r, cfg)
         # park a few handles, then let the finalizers run at point i
         for _ in range(3):
